@@ -32,7 +32,7 @@ LIBS = ["-llapack", "-lblas", "-lsqlite3", "-lm", "-lpthread"]
 ENV = dict(os.environ, OPENBLAS_NUM_THREADS="1", OMP_NUM_THREADS="1",
            ASAN_OPTIONS="detect_leaks=0:halt_on_error=1:abort_on_error=0:exitcode=77:handle_abort=1:allocator_may_return_null=1:detect_stack_use_after_return=0",
            UBSAN_OPTIONS="print_stacktrace=1:halt_on_error=1",
-           TSAN_OPTIONS="halt_on_error=0:report_signal_unsafe=0")
+           TSAN_OPTIONS="halt_on_error=1:exitcode=66:report_signal_unsafe=0:second_deadlock_stack=1")
 
 
 def sh(cmd, **kw):
